@@ -109,6 +109,9 @@ Desc(t) == [kind |-> "desc", t |-> t]
 \*      (such a wrapper is not a program-wide entity: nothing can refer to it from elsewhere), "" otherwise.
 Wrap(sub, ptr, t, name, via) == [kind |-> "wrapper", sub |-> sub, recv |-> [ptr |-> ptr, t |-> t], name |-> name, via |-> via]
 GoThunk(pkg, site) == [kind |-> "gothunk", pkg |-> pkg, site |-> site]
+\* "//go:linkname local importpath.name" in package pkg: the body-less local declaration DENOTES the entity `target`
+\* of another package (a further reference to it, under a local name)
+Linked(pkg, local, target) == [kind |-> "linked", pkg |-> pkg, name |-> local, target |-> target]
 
 RECURSIVE CanonE(_)
 CanonE(e) ==
@@ -116,6 +119,7 @@ CanonE(e) ==
     [] e.kind = "inst" -> [e EXCEPT !.targs = [i \in 1..Len(e.targs) |-> Canon(e.targs[i])]]
     [] e.kind = "closure" -> [e EXCEPT !.parent = CanonE(@)]
     [] e.kind = "desc" -> [e EXCEPT !.t = Canon(@)]
+    [] e.kind = "linked" -> CanonE(e.target)
     [] OTHER -> e
 Same(e1, e2) == CanonE(e1) = CanonE(e2)
 RECURSIVE EPkgs(_)
@@ -124,6 +128,7 @@ EPkgs(e) ==
     [] e.kind = "inst" -> {e.pkg} \cup UNION {TPkgs(e.targs[i]) : i \in 1..Len(e.targs)}
     [] e.kind = "closure" -> EPkgs(e.parent)
     [] e.kind = "desc" -> TPkgs(e.t)
+    [] e.kind = "linked" -> {e.pkg} \cup EPkgs(e.target)
     [] OTHER -> {e.pkg}
 
 \* ------------------------------------------------------------------ the world
@@ -180,6 +185,15 @@ PkgWraps == UNION {{Wrap("promote", FALSE, N(p, "W"), "M", ""), Wrap("promote", 
                     Wrap("thunk", FALSE, N(p, "T"), "M", ""), Wrap("thunk", TRUE, N(p, "U"), "M", "")} : p \in DefPkgs}
 AnonWraps(from) == {Wrap("promote", FALSE, a, "M", from) : a \in {AN("p1", "A"), AN("p1", "B"), AN("p2", "A")}}
 GoThunks(from) == {GoThunk(from, i) : i \in 1..3}
+\* directives: p1 keeps three unexported things, p2 pulls them in with //go:linkname; p1 exports one function
+\* to C under its own name (//export Exported)
+Hidden == {Func("p1", "hidden"), Glob("p1", "hv"), Meth(FALSE, N("p1", "S"), "m")}
+LinkRefs(from) == IF from = "p2" THEN {Linked("p2", "pull", Func("p1", "hidden")), Linked("p2", "pv", Glob("p1", "hv")),
+                                       Linked("p2", "pm", Meth(FALSE, N("p1", "S"), "m"))}
+                  ELSE {}
+ExportedToC == {Func("p1", "Exported")}
+\* Go: an identifier that does not start with an upper-case letter is visible in its own package only
+Visible1(e, from) == e \in Hidden => from = "p1"
 
 \* the method a wrapper forwards to
 Target(w) ==
@@ -188,14 +202,15 @@ Target(w) ==
     ELSE IF t.scope # <<>> THEN Meth(FALSE, N(t.pkg, Emb(t.scope)), w.name)
     ELSE IF t.name = "W" THEN Meth(FALSE, N(t.pkg, "A"), w.name)
     ELSE Meth(t.name = "U", t, w.name)
-Reach(e) == IF e.kind = "wrapper" THEN CanonE(Target(e)) ELSE CanonE(e)
+Reach(e) == IF e.kind = "wrapper" THEN CanonE(Target(e)) ELSE CanonE(e)      \* (a linked declaration reaches its target)
 
 \* which packages refer to what
 Referrers == Pkgs
 EntitiesFrom(from) ==
   Methods \cup Funcs \cup Insts1(from) \cup Insts2 \cup GMeths(from) \cup Closures \cup Globals
   \cup {Desc(t) : t \in DescTerms(from)} \cup LocalWraps(from) \cup PkgWraps \cup AnonWraps(from) \cup GoThunks(from)
-Refs == UNION {{[ent |-> e, from |-> f] : e \in {x \in EntitiesFrom(f) : EPkgs(x) \subseteq Visible(f)}} : f \in Referrers}
+  \cup Hidden \cup LinkRefs(from) \cup ExportedToC
+Refs == UNION {{[ent |-> e, from |-> f] : e \in {x \in EntitiesFrom(f) : EPkgs(x) \subseteq Visible(f) /\ Visible1(x, f)}} : f \in Referrers}
 
 \* ------------------------------------------------------------------ enumeration
 VARIABLE r
@@ -219,5 +234,5 @@ LocalOnlyFromHome == EntSite(r.ent).scope # <<>> => EntSite(r.ent).pkg = r.from
 ReachIsEntityOrTarget == (r.ent.kind # "wrapper") => Reach(r.ent) = CanonE(r.ent)
 
 Emit == PrintT(ToJson([ent |-> r.ent, from |-> r.from, class |-> CanonE(r.ent), reach |-> Reach(r.ent),
-                       site |-> EntSite(r.ent)]))
+                       site |-> EntSite(r.ent), export |-> (r.ent \in ExportedToC)]))
 =====================================================================================
